@@ -10,7 +10,7 @@ RULE = ('Wide DAGs (3-16 nodes over types with max_parallel 1/2/3/None, many sim
         'fork/spawn backends with GATED nodes (every run() blocks on a gate file; the harness releases a schedule-chosen subset '
         'at each resting point): for every prefix of the O_APPEND run() trace, tasks inside run() per type <= max_parallel and in '
         'total <= max_workers (None => os.cpu_count(), exercised with > cpu_count ready tasks). Serial: never two tasks inside '
-        'run(), all in the caller pid/thread. Non-trivial = some limit was binding (reached) at some instant. Distinct = hash of '
+        'run(), all in the caller pid/thread. Engine after-abort: the same counts on a second run in the same process after run 1 aborted with limited-type tasks in flight. Non-trivial = some limit was binding (reached) at some instant. Distinct = hash of '
         '(engine, spec).')
 ASSUMPTIONS = ['S/E/X/K records are written inside run(), so an excess in any trace prefix is a real simultaneous excess; saving after E only under-counts',
                'process-backend schedules are generator-owned (gates) but sampled']
@@ -27,7 +27,29 @@ def check_gated(spec: dict, gated: bool) -> core.CaseResult:
 
 
 def check(spec: dict) -> core.CaseResult:
+    if 'second' in spec:
+        return check_after_abort(spec)
     return check_gated(spec, spec.get('gated', False))
+
+
+def check_after_abort(spec: dict) -> core.CaseResult:
+    """Run 1 aborts with limited-type tasks in flight; the limits must hold for run 2 in the same process as well (bookkeeping left
+    behind by the aborted run must neither raise nor lower what run 2 may start)."""
+    from pbt import dagrun
+    second = spec['second']
+    obs = dagrun.execute_case(spec, second=second)
+    ex1 = oracles.expect_for(spec, obs)
+    findings, binding = oracles.c04_limits(spec, obs, ex1, dagprop.CPU)
+    if obs.second is not None and obs.second.outcome is not None:
+        spec2 = {**spec, 'requested': [{'ref': i, 'fresh': False} for i in second['requested']], 'lab': {**spec['lab'], 'continue_on_failure': True}}
+        ex2 = oracles.expect_second(spec, obs, ex1, second)
+        f2, b2 = oracles.c04_limits(spec2, obs.second, ex2, dagprop.CPU)
+        binding = binding or b2
+        findings += [core.Finding(f.signature.replace('C04:', 'C04:run-after-aborted-run:'), f.detail) for f in f2]
+    labels = [f'backend={spec["lab"]["backend"]}', 'after-abort', f'run1={obs.outcome}']
+    if binding:
+        labels.append('limit_binding')
+    return dagprop.result(obs, findings, binding and obs.second is not None, labels, prop='C04')
 
 
 def plan(tier: str) -> list[dict]:
@@ -35,6 +57,7 @@ def plan(tier: str) -> list[dict]:
     jobs = list(dagprop.std_plan(tier, controlled=(10, 150, 2500), serial=(1, 40, 800), fork=(0, 0, 0), spawn=(0, 0, 0),
                             gated_fork=(4, 12, 400), gated_spawn=(1, 3, 60)))
     jobs += [{'engine': 'executor-machine', 'n': 12 if q else 400, 'steps': 14 if q else 30, 'hashseed': i} for i in range(2)]
+    jobs += [{'engine': 'after-abort:controlled', 'n': 80 if q else 2500, 'hashseed': 5}, {'engine': 'after-abort:fork', 'n': 6 if q else 200, 'hashseed': 6}]
     return jobs
 
 
@@ -53,6 +76,11 @@ def run_job(rec: core.Recorder, job: dict, seed: int) -> None:
     if job['engine'] == 'executor-machine':
         from pbt import execmachine
         execmachine.run_machines(rec, 'executor-machine', 'C04:', job['n'], job['steps'], seed)
+        return
+    if job['engine'].startswith('after-abort:'):
+        from pbt.props import c05
+        b = job['engine'].split(':')[1]
+        core.run_hypothesis(rec, job['engine'], c05.abort_spec(b), check_after_abort, max_examples=job['n'], seed=seed, shrink=(b == 'controlled'))
         return
     eng, gated = dagprop.backend_of(job['engine'])
     core.run_hypothesis(rec, job['engine'], strategy(eng, gated, seed), check, max_examples=job['n'], seed=seed,
